@@ -126,3 +126,32 @@ def u_write_dict(ctx):
                                    status="proved" if not raised else "refuted", solver="native", seconds=0.0, expect="proved",
                                    detail="; ".join(repr(r) for r in raised[:2]) + ("\n" + raised[0].tb[-700:] if raised else "")))
     ctx.absorb(ex)
+
+
+@unit(P, "frame[copy operations keep no state between calls: no mutable parameter default in any copy/deepcopy method]", "A1",
+      targets=[])
+def u_copy_frame(ctx):
+    """a copy's result must be a function of its source (and the memo the caller passes): a mutable default argument is
+    state shared by every call.  Obligation per method, read from the current AST of every module of the package."""
+    import os
+    from pyvc import frames, REPO
+    ctx.trust("syntactic frame: a default that is a list/dict/set display or a call is a per-process object shared by all calls")
+    k = 0
+    for root, dirs, files in os.walk(os.path.join(REPO, "pybrops")):
+        dirs[:] = sorted(d for d in dirs if d != "__pycache__")
+        for f in sorted(files):
+            if not f.endswith(".py"):
+                continue
+            rel = os.path.relpath(os.path.join(root, f), REPO)
+            try:
+                ms = frames.methods_named(rel, ("copy", "deepcopy", "__copy__", "__deepcopy__"))
+            except SyntaxError:
+                continue
+            if ms:
+                ctx.extra_files = getattr(ctx, "extra_files", set()) | {rel}
+            for q, node in ms:
+                bad = frames.mutable_defaults(node)
+                k += 1
+                ctx.record("frame:%s:%s:no-state-between-calls" % (rel, q), not bad, kind="frame",
+                           detail="mutable defaults: %s" % bad)
+    ctx.record("frame:copy-methods-found", k >= 40, kind="cover", detail="%d copy methods" % k)
